@@ -104,6 +104,11 @@ class CsrEvMonWorld(World):
             raise Violation("C14", "memory-map-lacks-enable-or-pending", 0, f"{sorted(regs)}")
         names = ["enable", "pending"]
         specs = [RegSpec(i, regs[nm][0], regs[nm][1], n, True, True) for i, nm in enumerate(names)]
+        for sp, nm in zip(specs, names):
+            if (sp.end - sp.start) * dw < n:
+                raise Violation("C14", "register-range-cannot-hold-the-mask", 0,
+                                f"{nm} is reported at [{sp.start},{sp.end}) = "
+                                f"{(sp.end - sp.start) * dw} bits for {n} events")
         rf = RegFile(dw, specs)
         aw = len(bus.addr)
         hwseed = config["hwseed"]
